@@ -94,6 +94,9 @@ func runC08(seed int64, n int, long bool) {
 		runC08ReadInterleave(seed, rounds)
 	}
 	if len(sum.Failures) == 0 {
+		runC08CommandInterleave()
+	}
+	if len(sum.Failures) == 0 {
 		c08Server(seed, rounds)
 	}
 }
@@ -1566,6 +1569,10 @@ func deadTime(i int) time.Time {
 		return time.UnixMilli(-5000)
 	case 4:
 		return time.UnixMilli(1)
+	case 5:
+		return time.UnixMilli(86400000) // 1970 + a day: fewer digits, a larger leading one
+	case 6:
+		return time.UnixMilli(999)
 	default:
 		return time.Now().Add(-time.Hour)
 	}
@@ -1594,6 +1601,8 @@ func populate(x *hx.Exec, n int, expired func(i int) bool) (live, dead int) {
 		} else {
 			if i%3 == 0 {
 				_ = x.DB.Key().Expire(k, time.Hour)
+			} else if i%7 == 1 {
+				_ = x.DB.Key().ExpireAt(k, time.UnixMilli(10413792000000)) // the year 2300: one digit more
 			}
 			live++
 		}
